@@ -165,6 +165,10 @@ example : (∃ ps0 ids0, iterN (P 10 (1/100)) F ([1, 2].sum) {} = .ok (ps0, ids0
 /-- a first `Solve` that ends normally -/
 example : (solveLoop (P 5 (1/100)) F 6 {}).2 = false := by decide +kernel
 
+/-- the headline theorems instantiated (hypotheses discharged by kernel evaluation) -/
+example := C11_batch_split (P 10 (1/100)) F 1 2 {} (by decide +kernel)
+example := C11_solve_idempotent (P 5 (1/100)) F noRefine noRefine {} (by decide +kernel)
+
 end examples
 
 end C11
